@@ -8,6 +8,8 @@ for res in sorted(glob.glob('/verif/work/seedres/*.txt')):
     src='/tmp/seed-%s'%pid
     if pid.endswith('r2'):
         pid=pid[:-2]; src='/tmp/seed2-%s'%pid
+    elif pid.endswith('r3'):
+        pid=pid[:-2]; src='/tmp/seed3-%s'%pid
     kv={}
     for l in open(res):
         if '=' in l:
